@@ -2,7 +2,7 @@
    and the generic induction principle over the arrival order. *)
 From Coq Require Import ZArith List Bool Lia Permutation.
 Import ListNotations.
-From SCMO Require Import Lib.Val Model.C06.
+From SCMO Require Import Lib.Val Model.C06 Proofs.C06_shape.
 Open Scope Z_scope.
 
 (* ---------------------------------------------------------------- list-of-Z equality *)
@@ -33,7 +33,7 @@ Lemma offer_spec c f ms :
   | Rejected => rejects c f ms
   end.
 Proof.
-  induction ms as [|m ms IH]; cbn [offer].
+  induction ms as [|m ms IH]; [cbn [offer]|rewrite offer_cons].
   - intros m [].
   - destruct (accepts c f m) eqn:Ha.
     + destruct (full c m) eqn:Hf.
@@ -76,19 +76,17 @@ Qed.
 (* a fragment can only be accepted by a molecule carrying its match_hash *)
 Lemma hash_of_plain c fs : c_cls c <> 1 -> c_cls c <> 2 -> hash_of c fs = [].
 Proof.
-  intros H1 H2. unfold hash_of, key. destruct (lastf fs); [|reflexivity].
-  destruct (c_cls c =? 1) eqn:E1; [apply Z.eqb_eq in E1; contradiction|].
-  destruct (c_cls c =? 2) eqn:E2; [apply Z.eqb_eq in E2; contradiction|]. reflexivity.
+  intros H1 H2. unfold hash_of. destruct (lastf fs); [|reflexivity]. now apply key_plain.
 Qed.
 
 Lemma accepts_hash c f m : accepts c f m = true -> key c f = hash_of c (m_frags m).
 Proof.
-  unfold accepts. destruct (c_cls c =? 1) eqn:E1.
+  rewrite accepts_shape. unfold accepts_spec. destruct (c_cls c =? 1) eqn:E1.
   - intros H. apply andb_true_iff in H as [H _]. now apply zs_eqb_eq.
   - destruct (c_cls c =? 2) eqn:E2.
     + intros H. apply andb_true_iff in H as [H _]. apply andb_true_iff in H as [H _]. now apply zs_eqb_eq.
     + intros _. apply Z.eqb_neq in E1, E2. rewrite hash_of_plain by assumption.
-      unfold key. apply Z.eqb_neq in E1, E2. now rewrite E1, E2.
+      now apply key_plain.
 Qed.
 
 (* ---------------------------------------------------------------- groups *)
@@ -352,42 +350,41 @@ Proof.
 Qed.
 
 (* ---------------------------------------------------------------- write_tags *)
-Lemma tags_from_length fx af tf rc fs : length (tags_from fx af tf rc fs) = length fs.
+Lemma tags_from_length fx n over rc fs : length (tags_from fx n over rc fs) = length fs.
 Proof. revert rc; induction fs as [|f fs IH]; intros rc; cbn; [reflexivity|now rewrite IH]. Qed.
 
-Lemma tags_from_nth fx af tf fs : forall rc i x, nth_error (tags_from fx af tf rc fs) i = Some x ->
-  exists f, nth_error fs i = Some f /\ t_id x = f_id f /\ t_rc x = rc + Z.of_nat i /\ t_af x = af /\ t_tf x = tf /\
-            t_qc x = negb (f_valid f) /\
-            t_dup x = (if fx then 0 <? rc + Z.of_nat i else (0 <? rc + Z.of_nat i) || f_dup f).
+Lemma tags_from_nth n over fs : 0 <= n -> forall rc i x, 0 <= rc -> nth_error (tags_from true n over rc fs) i = Some x ->
+  exists f, nth_error fs i = Some f /\ t_id x = f_id f /\ t_rc x = rc + Z.of_nat i /\ t_af x = n /\ t_tf x = n + over /\
+            t_qc x = negb (f_valid f) /\ t_dup x = (0 <? rc + Z.of_nat i).
 Proof.
-  induction fs as [|f fs IH]; intros rc i x H; cbn [tags_from] in H.
+  intros Hn. induction fs as [|f fs IH]; intros rc i x Hrc H.
   - destruct i; discriminate.
-  - destruct i as [|i]; cbn [nth_error] in *.
+  - rewrite tags_from_cons in H by assumption. destruct i as [|i]; cbn [nth_error] in *.
     + inversion H; subst; clear H. exists f. cbn. rewrite Z.add_0_r. repeat split; reflexivity.
-    + apply IH in H as (g & Hg & H1 & H2 & H3 & H4 & H5 & H6). exists g.
+    + apply IH in H as (g & Hg & H1 & H2 & H3 & H4 & H5 & H6); [|lia]. exists g.
       replace (rc + Z.of_nat (S i)) with (rc + 1 + Z.of_nat i) by lia. repeat split; assumption.
 Qed.
 
-Lemma tags_from_nodup_later af tf fs : forall rc, 0 < rc ->
-  filter (fun x => negb (t_dup x)) (tags_from true af tf rc fs) = [].
+Lemma tags_from_nodup_later n over fs : 0 <= n -> forall rc, 0 < rc ->
+  filter (fun x => negb (t_dup x)) (tags_from true n over rc fs) = [].
 Proof.
-  induction fs as [|f fs IH]; intros rc Hrc; cbn; [reflexivity|].
+  intros Hn. induction fs as [|f fs IH]; intros rc Hrc; [reflexivity|]. rewrite tags_from_cons by lia. cbn [filter t_dup].
   destruct (0 <? rc) eqn:E; [|apply Z.ltb_ge in E; lia]. cbn. apply IH. lia.
 Qed.
 
 Lemma write_tags_one_primary m : m_frags m <> [] ->
   exists x, filter (fun x => negb (t_dup x)) (write_tags true m) = [x] /\ hd_error (write_tags true m) = Some x.
 Proof.
-  unfold write_tags. destruct (m_frags m) as [|f fs]; [congruence|]. intros _. cbn [tags_from].
-  eexists. split; [|reflexivity]. cbn. rewrite tags_from_nodup_later by lia. reflexivity.
+  unfold write_tags. destruct (m_frags m) as [|f fs] eqn:Ef; [congruence|]. intros _.
+  rewrite tags_from_cons by lia.
+  eexists. split; [|reflexivity]. cbn [filter t_dup]. cbn. rewrite tags_from_nodup_later by lia. reflexivity.
 Qed.
 
-Lemma write_tags_nth fx m i x : nth_error (write_tags fx m) i = Some x ->
+Lemma write_tags_nth m i x : nth_error (write_tags true m) i = Some x ->
   exists f, nth_error (m_frags m) i = Some f /\ t_id x = f_id f /\ t_rc x = Z.of_nat i /\
             t_af x = Z.of_nat (length (m_frags m)) /\ t_tf x = Z.of_nat (length (m_frags m)) + m_over m /\
-            t_qc x = negb (f_valid f) /\
-            t_dup x = (if fx then 0 <? Z.of_nat i else (0 <? Z.of_nat i) || f_dup f).
-Proof. unfold write_tags. intros H. apply tags_from_nth in H. exact H. Qed.
+            t_qc x = negb (f_valid f) /\ t_dup x = (0 <? Z.of_nat i).
+Proof. unfold write_tags. intros H. apply tags_from_nth in H; [exact H|lia|lia]. Qed.
 
 (* unpatched write_tags (duplicate bit only ever set): a molecule whose first fragment arrives flagged has no primary *)
 Definition d9_frag (id : Z) (dup : bool) : frag :=
@@ -434,7 +431,7 @@ Definition mol_sound (c : cfg) (fs : list frag) : Prop :=
 
 Lemma umi_eq_close d a b : umi_eq d a b = true <-> umi_close d a b.
 Proof.
-  unfold umi_eq, umi_close. destruct (zs_eqb a b) eqn:E.
+  rewrite umi_eq_shape. unfold umi_close. destruct (zs_eqb a b) eqn:E.
   - apply zs_eqb_eq in E. split; auto.
   - apply zs_eqb_neq in E. destruct (d =? 0) eqn:Ed.
     + apply Z.eqb_eq in Ed. split; [discriminate|]. intros [H|(H & _)]; contradiction.
@@ -481,22 +478,23 @@ Proof.
   assert (Htrans : origin_ok c f g0 -> forall g, In g (m_frags m) -> origin_ok c f g).
   { intros [(H1 & H2 & H3) H4] g Hg. destruct (Hall g0 g Hg0 Hg) as [(K1 & K2 & K3) K4].
     split; [repeat split; congruence|]. intros He. rewrite H4, K4 by assumption. reflexivity. }
-  unfold accepts in Ha. rewrite Hov, app_nil_r in Ha. unfold hash_of in Ha. rewrite Hl in Ha.
+  rewrite accepts_shape in Ha. unfold accepts_spec in Ha. rewrite Hov, app_nil_r in Ha. unfold hash_of in Ha. rewrite Hl in Ha.
   destruct (c_cls c =? 1) eqn:E1.
   - apply Z.eqb_eq in E1. apply andb_true_iff in Ha as [Hk Hu]. apply zs_eqb_eq in Hk.
-    unfold key in Hk. rewrite E1 in Hk. cbn in Hk. apply key_inj4 in Hk as (K1 & K2 & K3 & K4).
+    apply (key_nla c f g0 E1) in Hk as (K1 & K2 & K3 & K4).
     split; [|split].
     + apply Htrans. split; [repeat split; assumption|auto].
     + now apply umi_eq_close.
     + split; intros; congruence.
   - apply Z.eqb_neq in E1. destruct (c_cls c =? 2) eqn:E2.
     + apply Z.eqb_eq in E2. apply andb_true_iff in Ha as [Ha Hu]. apply andb_true_iff in Ha as [Hk Hr].
-      apply zs_eqb_eq in Hk. unfold key in Hk. rewrite E2 in Hk. cbn in Hk.
+      apply zs_eqb_eq in Hk.
       split; [|split].
       * apply Htrans. destruct (c_r c =? 0) eqn:Er.
-        -- apply key_inj4 in Hk as (K1 & K2 & K3 & K4). split; [repeat split; assumption|auto].
-        -- inversion Hk. split; [repeat split; assumption|]. intros [He|[_ He]]; [congruence|].
-           apply Z.eqb_neq in Er. contradiction.
+        -- apply Z.eqb_eq in Er. apply (key_chic0 c f g0 E2 Er) in Hk as (K1 & K2 & K3 & K4).
+           split; [repeat split; assumption|auto].
+        -- apply Z.eqb_neq in Er. apply (key_chicr c f g0 E2 Er) in Hk as (K1 & K2 & K3).
+           split; [repeat split; assumption|]. intros [He|[_ He]]; [congruence|contradiction].
       * now apply umi_eq_close.
       * split; [|intros; congruence]. intros _ Hpos. apply negb_true_iff in Hr.
         apply andb_false_iff in Hr as [Hr|Hr]; [apply Z.ltb_ge in Hr; lia|apply Z.ltb_ge in Hr; assumption].
@@ -611,7 +609,7 @@ Proof.
 Qed.
 
 Lemma umi_eq_0 a b : umi_eq 0 a b = zs_eqb a b.
-Proof. unfold umi_eq. now destruct (zs_eqb a b). Qed.
+Proof. rewrite umi_eq_shape. now destruct (zs_eqb a b). Qed.
 
 Lemma accepts_exact c f m g : c_d c = 0 -> exact_site c -> hd_error (m_frags m) = Some g ->
   (forall x, In x (m_frags m) -> fkeyb c g x = true) -> accepts c f m = fkeyb c f g.
@@ -622,7 +620,7 @@ Proof.
   assert (Hk : key c g0 = key c g) by (apply Hall, fkeyb_eq in Hg0; inversion Hg0; auto).
   assert (Hrep : rep_of (m_frags m) = f_umi g).
   { apply rep_of_const; [assumption|]. intros x Hx. apply Hall, fkeyb_eq in Hx. inversion Hx; auto. }
-  unfold accepts, fkeyb, hash_of. rewrite Hl, Hk, Hrep, Hd, umi_eq_0.
+  rewrite accepts_shape. unfold accepts_spec, fkeyb, hash_of. rewrite Hl, Hk, Hrep, Hd, umi_eq_0.
   destruct He as [E1|[E2 Er]].
   - rewrite E1. reflexivity.
   - rewrite E2, Er. cbn. now rewrite andb_true_r.
